@@ -37,13 +37,27 @@ func New(r *rand.Rand, isTyped func(int) bool) *G {
 func (g *G) bytes(n int) []byte { return gen4.Bytes(g.R, n) }
 
 func (g *G) smallLen() int {
-	switch g.R.IntN(10) {
+	switch g.R.IntN(12) {
 	case 0:
 		return 0
 	case 1:
 		return 1 + g.R.IntN(300)
+	case 2: // around the one-octet boundary, and beyond what fits one v4 option instance
+		return []int{127, 128, 129, 254, 255, 256, 257, 511, 512, 1000 + g.R.IntN(1200)}[g.R.IntN(10)]
 	}
 	return 1 + g.R.IntN(24)
+}
+
+// boundLen draws a length in 0..max: small most of the time, within 3 of max one time in five (identifiers with a
+// maximum length laid down by an RFC must be accepted up to and including it).
+func (g *G) boundLen(max int) int {
+	switch g.R.IntN(5) {
+	case 0:
+		return max - g.R.IntN(min(4, max+1))
+	case 1:
+		return g.R.IntN(max + 1)
+	}
+	return g.R.IntN(min(20, max+1))
 }
 
 // Addr draws a 16-byte address from realistic classes.
@@ -172,13 +186,13 @@ func hexes(l [][]byte) []string {
 func (g *G) DUID() (dhcpv6.DUID, *tree.Node) {
 	switch g.R.IntN(5) {
 	case 0:
-		hw, t, ll := uint16(g.R.UintN(65536)), g.R.Uint32(), g.bytes(g.R.IntN(20))
+		hw, t, ll := uint16(g.R.UintN(65536)), g.R.Uint32(), g.bytes(g.boundLen(122))
 		return &dhcpv6.DUIDLLT{HWType: iana.HWType(hw), Time: t, LinkLayerAddr: ll}, tree.N("duid-llt").U("hw", uint64(hw)).U("time", uint64(t)).B("ll", ll)
 	case 1:
-		en, id := g.R.Uint32(), g.bytes(g.R.IntN(20))
+		en, id := g.R.Uint32(), g.bytes(g.boundLen(124))
 		return &dhcpv6.DUIDEN{EnterpriseNumber: en, EnterpriseIdentifier: id}, tree.N("duid-en").U("en", uint64(en)).B("id", id)
 	case 2:
-		hw, ll := uint16(g.R.UintN(65536)), g.bytes(g.R.IntN(20))
+		hw, ll := uint16(g.R.UintN(65536)), g.bytes(g.boundLen(126))
 		return &dhcpv6.DUIDLL{HWType: iana.HWType(hw), LinkLayerAddr: ll}, tree.N("duid-ll").U("hw", uint64(hw)).B("ll", ll)
 	case 3:
 		var u [16]byte
@@ -189,7 +203,7 @@ func (g *G) DUID() (dhcpv6.DUID, *tree.Node) {
 	if t >= 1 && t <= 4 {
 		t += 4
 	}
-	d := g.bytes(g.R.IntN(40))
+	d := g.bytes(g.boundLen(128))
 	return &dhcpv6.DUIDOpaque{Type: dhcpv6.DUIDType(t), Data: d}, tree.N("duid-opaque").U("type", uint64(t)).B("data", d)
 }
 
